@@ -9,7 +9,12 @@
 //
 // Line protocol (see design/C01.md):
 //
-//	new <admit> <serve> <cap> <dnl ms> <fib alg>             => ok
+//	new <admit> <serve> <cap> <dnl ms> <fib alg> [ls]        => ok
+//	     "ls" = ingress through the REAL link service: every Interest/Data is encoded as an NDNLPv2
+//	     frame (bare packet when it carries neither PIT token nor NextHopFaceId) and handed to a real
+//	     NDNLPLinkService over an in-memory transport of the face's scope (fw/face verif hooks of C10),
+//	     whose dispatchInterest / dispatchData queue it into the thread; without "ls" the harness
+//	     builds defn.Pkt itself.  Outgoing packets are recorded by the fake faces in both modes.
 //	face <id> <L|N> <p2p|multi|adhoc>                        => ok
 //	rmface <id>                                              => ok
 //	fib <name> <face> <cost> | unfib <name> <face> | clrfib <name>   => ok
@@ -43,6 +48,7 @@ import (
 	"github.com/named-data/ndnd/fw/core"
 	"github.com/named-data/ndnd/fw/defn"
 	"github.com/named-data/ndnd/fw/dispatch"
+	"github.com/named-data/ndnd/fw/face"
 	"github.com/named-data/ndnd/fw/fw"
 	"github.com/named-data/ndnd/fw/table"
 	enc "github.com/named-data/ndnd/std/encoding"
@@ -92,7 +98,37 @@ var (
 	lastTok  map[string]int    // name text -> label most recently sent upstream for that name
 	logInit  bool
 	hashSeen map[uint64]string // A-hash check: name hash -> name text
+	lsMode   bool
+	lsFaces  map[uint64]*face.NDNLPLinkService
 )
+
+// inject hands one packet to the real link service of face id (ls mode); false if there is none.
+func inject(id uint64, wire []byte, tok []byte, nh *uint64) bool {
+	l, ok := lsFaces[id]
+	if !lsMode || !ok {
+		return false
+	}
+	frame := wire
+	if len(tok) > 0 || nh != nil {
+		lp := &spec.LpPacket{Fragment: enc.Wire{wire}}
+		if len(tok) > 0 {
+			lp.PitToken = append([]byte{}, tok...)
+		}
+		if nh != nil {
+			lp.NextHopFaceId = utils.IdPtr(*nh)
+		}
+		pkt := &spec.Packet{LpPacket: lp}
+		e := spec.PacketEncoder{}
+		e.Init(pkt)
+		w := e.Encode(pkt)
+		if w == nil {
+			panic("harness: cannot encode LpPacket")
+		}
+		frame = w.Join()
+	}
+	face.VerifHandleIncomingFrame(l, frame)
+	return true
+}
 
 func stopThread() {
 	if th == nil {
@@ -134,6 +170,9 @@ func newHistory(f []string) string {
 	fw.Configure()
 	th = fw.NewThread(0)
 	fw.Threads = []*fw.Thread{th}
+	dispatch.InitializeFWThreads([]dispatch.FWThread{th})
+	lsMode = len(f) == 7 && f[6] == "ls"
+	lsFaces = map[uint64]*face.NDNLPLinkService{}
 	go th.Run()
 	synctest.Wait()
 	labels = map[uint32]int{}
@@ -221,7 +260,7 @@ func doInterest(f []string) string {
 	if th == nil {
 		return "skip"
 	}
-	face := common.Atou(f[1])
+	faceID := common.Atou(f[1])
 	name := common.ParseNameText(f[2])
 	checkHash(name)
 	cfg := &ndn.InterestConfig{CanBePrefix: b01(f[3]), MustBeFresh: b01(f[4])}
@@ -248,14 +287,18 @@ func doInterest(f []string) string {
 	if err != nil || l3.Interest == nil {
 		return "err-parse"
 	}
-	pkt := &defn.Pkt{Name: l3.Interest.NameV, L3: l3, Raw: wire, IncomingFaceID: utils.IdPtr(face)}
+	var itok []byte
 	if f[8] != "-" {
-		pkt.PitToken = common.UnHex(f[8])
+		itok = common.UnHex(f[8])
 	}
+	var nh *uint64
 	if v, ok := optU(f[9]); ok {
-		pkt.NextHopFaceID = utils.IdPtr(v)
+		nh = utils.IdPtr(v)
 	}
-	th.QueueInterest(pkt)
+	if !inject(faceID, wire, itok, nh) {
+		pkt := &defn.Pkt{Name: l3.Interest.NameV, L3: l3, Raw: wire, IncomingFaceID: utils.IdPtr(faceID), PitToken: itok, NextHopFaceID: nh}
+		th.QueueInterest(pkt)
+	}
 	synctest.Wait()
 	return render() + " | " + counters()
 }
@@ -264,7 +307,7 @@ func doData(f []string) string {
 	if th == nil {
 		return "skip"
 	}
-	face := common.Atou(f[1])
+	faceID := common.Atou(f[1])
 	name := common.ParseNameText(f[2])
 	checkHash(name)
 	cfg := &ndn.DataConfig{}
@@ -302,8 +345,10 @@ func doData(f []string) string {
 	if err != nil || l3.Data == nil {
 		return "err-parse"
 	}
-	pkt := &defn.Pkt{Name: l3.Data.NameV, L3: l3, Raw: wire, IncomingFaceID: utils.IdPtr(face), PitToken: tok}
-	th.QueueData(pkt)
+	if !inject(faceID, wire, tok, nil) {
+		pkt := &defn.Pkt{Name: l3.Data.NameV, L3: l3, Raw: wire, IncomingFaceID: utils.IdPtr(faceID), PitToken: tok}
+		th.QueueData(pkt)
+	}
 	synctest.Wait()
 	return render() + " | " + counters()
 }
@@ -317,7 +362,7 @@ var stratName = map[string]string{
 func Exec(op string) string {
 	f := common.Fields(op)
 	if f[0] == "new" {
-		if len(f) != 6 {
+		if len(f) != 6 && len(f) != 7 {
 			return "bad-op"
 		}
 		return newHistory(f)
@@ -340,6 +385,14 @@ func Exec(op string) string {
 			ff.link = defn.PointToPoint
 		}
 		dispatch.AddFace(ff.id, ff)
+		if lsMode {
+			// the ingress side of the face: real link service over an in-memory transport of that scope
+			opts := face.MakeNDNLPLinkServiceOptions()
+			opts.IsConsumerControlledForwardingEnabled = true
+			l := face.MakeNDNLPLinkService(face.VerifNewTransport(8800, ff.scope), opts)
+			l.SetFaceID(ff.id)
+			lsFaces[ff.id] = l
+		}
 		return "ok"
 	case "rmface":
 		dispatch.RemoveFace(common.Atou(f[1]))
